@@ -36,7 +36,7 @@ Print Assumptions C14_overwrite_only_if.
 Theorem C14_stock_strategies : forall rel ms md,
   verdict FS_always rel ms md = true /\ verdict FS_never rel ms md = false
   /\ (verdict FS_update rel ms md = true <-> (ms > md)%Z).
-Proof. intros. simpl. repeat split; try (intro H; apply Z.gtb_lt in H; lia). intro H. apply Z.gtb_lt. lia. Qed.
+Proof. exact stock_strategies. Qed.
 Print Assumptions C14_stock_strategies.
 
 (* no_strategy_conflict — strategy=None: (a) whatever happens, every file of the destination keeps its content
